@@ -542,9 +542,18 @@ def part_orbit(ck: Check, fx: Fx, rec: CacheRecorder, dictmode: str, rnd: random
         raise MachineryError(f"simulation produced only {len(walks)} walks")
 
     dbg("sim done")
+    # (d') transition cover x read battery (MCOrbitProbe): every writer out of every core state, then every read
+    cfgp = make_cfg(f"OrbitProbe.asis.{ck.tier}.cfg", flags, wd, "OrbitProbe.live.cfg")
+    rp = tlc(OBJ / "probe" / "MCOrbitProbe.tla", cfgp, timeout=1500, workers=1)
+    ck.model(f"OrbitProbe.live.{ck.tier}", rp)
+    probes = [h for h in rp.printed() if isinstance(h, list)]
+    if not probes:
+        raise MachineryError("MCOrbitProbe emitted no histories")
+    ck.part("orbit_model", probe_histories=len(probes))
     hists = rnd.sample(hists, min(len(hists), 1000 if ck.quick else 8000))
     deep = rnd.sample(deep, min(len(deep), 300 if ck.quick else 2000))
-    jobs = [("lyapunov", h) for h in hists] + [("lyapunov", h) for h in deep] + [("lyapunov", h) for h in walks]
+    jobs = [("lyapunov", h) for h in hists] + [("lyapunov", h) for h in deep] + [("lyapunov", h) for h in walks] \
+        + [("lyapunov", h) for h in probes]
     if "halo" in worlds:
         sub = rnd.sample(hists, min(len(hists), 1500))
         jobs += [("halo", h) for h in sub] + [("halo", h) for h in walks[: len(walks) // 4]]
@@ -1035,7 +1044,7 @@ class CMWorld(SmallWorld):
 
 
 def part_small(ck: Check, world: SmallWorld, mcspec: str, cfg_live: str, cfg_repaired: str, rnd, *,
-               budget: int, keep=None, flags=None, wd=None):
+               budget: int, keep=None, flags=None, wd=None, probe=None):
     r = tlc(OBJ / mcspec, CFG / cfg_repaired, timeout=900, workers=8)
     ck.model(cfg_repaired[:-4], r)
     flags = dict(flags or {})
@@ -1051,6 +1060,18 @@ def part_small(ck: Check, world: SmallWorld, mcspec: str, cfg_live: str, cfg_rep
     total = len(hists)
     if len(hists) > budget:
         hists = rnd.sample(hists, budget)
+    n_probe = 0
+    if probe:
+        # transition cover x read battery (spec/objects/probe): never sampled away
+        pspec, pcfg = probe
+        rp = tlc(OBJ / "probe" / pspec, make_cfg(pcfg, flags, wd or workdir("c20s"), pcfg), timeout=900, workers=1)
+        ck.model(pcfg[:-4] + ".live", rp)
+        ph = [h for h in rp.printed() if isinstance(h, list)]
+        if not ph:
+            raise MachineryError(f"{pspec} emitted no histories")
+        n_probe = len(ph)
+        hists = hists + ph
+        total += n_probe
     viol, n_stale_model, n_bad, mism = {}, 0, 0, 0
     t0 = time.time()
     for h in hists:
@@ -1067,7 +1088,7 @@ def part_small(ck: Check, world: SmallWorld, mcspec: str, cfg_live: str, cfg_rep
                     dbg(world.name, "prediction mismatch", [[x["op"], x["arg"]] for x in h], "at", e, "model", s)
         for p in problems:
             viol.setdefault(p["key"], (h[: p["step"] + 1], p, init))
-    ck.part(world.name + "_replay", histories=len(hists), of=total, steps=sum(len(h) for h in hists),
+    ck.part(world.name + "_replay", histories=len(hists), of=total, probe_histories=n_probe, steps=sum(len(h) for h in hists),
             model_stale_steps=n_stale_model, real_stale_steps=n_bad, prediction_mismatches=mism,
             twin_evaluations=world.twin_evals, wall_s=round(time.time() - t0, 1))
     if mism:
@@ -1086,12 +1107,12 @@ def part_small(ck: Check, world: SmallWorld, mcspec: str, cfg_live: str, cfg_rep
         raise MachineryError(f"{world.name}: twin oracle is not deterministic")
 
 
-WORLDS = {"manifold": ManifoldWorld, "system": SystemWorld, "cm": CMWorld, "cm_hamiltonian": CMWorld}
+WORLDS = {"manifold": ManifoldWorld, "system": SystemWorld, "cm": CMWorld, "cm_hamiltonian": CMWorld, "cm_probe": CMWorld}
 
 
 def replay_small(fx, rec, data) -> bool:
     w = WORLDS[data["object"]](fx, rec, workdir("c20r"))
-    if data["object"] == "cm_hamiltonian" or any(o == "Hamiltonian" for o, _ in data["history"]):
+    if data["object"] in ("cm_hamiltonian", "cm_probe") or any(o == "Hamiltonian" for o, _ in data["history"]):
         w.enable_heavy()
     events, problems = w.replay([{"op": o, "arg": a} for o, a in data["history"]], data.get("init"))
     print(json.dumps({"events": events, "problems": problems}, indent=1, default=str))
@@ -1127,17 +1148,26 @@ def main(tier=None, replay=None):
         wd = workdir("c20s")
         q = ck.quick
         part_small(ck, ManifoldWorld(fx, rec, wd), "MCManifoldObject.tla", f"ManifoldObject.asis.{ck.tier}.cfg",
-                   "ManifoldObject.repaired.cfg", rnd, budget=250 if q else 4000, flags=dm, wd=wd)
+                   "ManifoldObject.repaired.cfg", rnd, budget=250 if q else 4000, flags=dm, wd=wd,
+                   probe=("MCManifoldProbe.tla", f"ManifoldProbe.asis.{ck.tier}.cfg"))
         dbg("manifold done")
         part_small(ck, SystemWorld(fx, rec, wd), "MCSystemObject.tla", f"SystemObject.asis.{ck.tier}.cfg",
-                   "SystemObject.repaired.cfg", rnd, budget=400 if q else 2000, flags=dm, wd=wd)
+                   "SystemObject.repaired.cfg", rnd, budget=400 if q else 2000, flags=dm, wd=wd,
+                   probe=("MCSystemProbe.tla", f"SystemProbe.asis.{ck.tier}.cfg"))
         dbg("system done")
         cmw = CMWorld(fx, rec, wd)
         part_small(ck, cmw, "MCCMObject.tla", "CMObject.asis.cfg", "CMObject.repaired.cfg", rnd,
                    budget=300, flags=dm, wd=wd, keep=lambda h: all(s["op"] in CMWorld.CHEAP for s in h))
+        # transition cover x read battery incl. save/load and to_synodic (normal forms of degree 2 and 3 are needed:
+        # real histories share one libration point, see enable_heavy)
+        cmw.enable_heavy()
+        dbg("cm normal forms ready")
+        cmw.name = "cm_probe"
+        part_small(ck, cmw, "MCCMObject.tla", "CMObject.asis.cfg", "CMObject.repaired.cfg", rnd,
+                   budget=0, flags=dm, wd=wd, keep=lambda h: False,
+                   probe=("MCCMProbe.tla", f"CMProbe.asis.{ck.tier}.cfg"))
+        dbg("cm probe done")
         if not q:
-            cmw.enable_heavy()
-            dbg("cm normal forms ready")
             cmw.name = "cm_hamiltonian"
             heavy_ops = CMWorld.CHEAP | {"Hamiltonian"}      # (save() evaluates cm.hamsys: it computes the normal form)
             part_small(ck, cmw, "MCCMObject.tla", "CMObject.asis.cfg", "CMObject.repaired.cfg", rnd,
@@ -1164,7 +1194,7 @@ def main(tier=None, replay=None):
 
 
 REPLAYERS = {"orbit": replay_orbit, "manifold": replay_small, "system": replay_small, "cm": replay_small,
-             "cm_hamiltonian": replay_small}
+             "cm_hamiltonian": replay_small, "cm_probe": replay_small}
 
 if __name__ == "__main__":
     sys.exit(main())
